@@ -1390,7 +1390,7 @@ def specialise_closures(j, helpers, helper_bodies):
                         if not _fold_known_switches(c):
                             break
                         _prune_unreachable(c)
-                    hit = True
+                        hit = True
                 changed = True
                 rounds = 0
                 while changed and rounds < 4:
